@@ -619,6 +619,9 @@ def standard_replay(ctx, path, prop):
     if case and case.get("sync"):
         import m1s_common
         return m1s_common.replay(case, prop)
+    if case and case.get("seq"):
+        import m1q_common
+        return m1q_common.replay(case, prop)
     if not case or not case.get("events"):
         print("replay file names a broken proof/correspondence, nothing to execute:", rep.get("kind"))
         return 1
@@ -1045,9 +1048,16 @@ def sync_backend(ctx, quick, prop, profile, scale=1.0):
     return m1s_common.check(ctx, prop, profile, quick, scale)
 
 
+def seq_path(ctx, quick, prop):
+    """Model/ParallelSeq.v against joblib.Parallel when n_jobs resolves to 1 (the sequential fast path)"""
+    import m1q_common
+    return m1q_common.check(ctx, prop, quick)
+
+
 def extra_c01(ctx, quick):
     f6_replay(ctx)
     cov = real_sampling(ctx, quick, "C01", 0.0)
+    cov.update(seq_path(ctx, quick, "C01"))
     cov.update(lock_probe(ctx, quick, "C01"))
     cov.update(auto_batch(ctx, quick))
     cov.update(sync_backend(ctx, quick, "C01", "c01"))
@@ -1057,6 +1067,7 @@ def extra_c01(ctx, quick):
 
 def extra_c04(ctx, quick):
     cov = real_sampling(ctx, quick, "C04", 0.7)
+    cov.update(seq_path(ctx, quick, "C04"))
     cov.update(sync_backend(ctx, quick, "C04", "c04"))
     cov.update(stall_probe(ctx, quick, "C04"))
     return cov
@@ -1064,12 +1075,14 @@ def extra_c04(ctx, quick):
 
 def extra_c09(ctx, quick):
     cov = lock_probe(ctx, quick, "C09")
+    cov.update(seq_path(ctx, quick, "C09"))
     cov.update(sync_backend(ctx, quick, "C09", "c04", 0.5))
     return cov
 
 
 def extra_c16(ctx, quick):
     cov = real_sampling(ctx, quick, "C16", 0.2)
+    cov.update(seq_path(ctx, quick, "C16"))
     cov.update(sync_backend(ctx, quick, "C16", "c01", 0.5))
     cov.update(stall_probe(ctx, quick, "C16"))
     return cov
